@@ -213,7 +213,7 @@ impl<'a> PrettyPrinter<'a> {
 }
 
 /// Whether the last token of the node is a linebreak, at any depth (e.g. `{ \`, `a_\`).
-fn ends_with_linebreak(node: &SyntaxNode) -> bool {
+pub(super) fn ends_with_linebreak(node: &SyntaxNode) -> bool {
     node.children()
         .last()
         .is_some_and(|last| last.kind() == SyntaxKind::Linebreak || ends_with_linebreak(last))
